@@ -20,7 +20,7 @@ ASSUMPTIONS = [
     "coinbase transaction and pycryptodome Keccak-256 (none of them the code under test's)",
 ]
 REQUIRED_LABELS = {t: ["advance", "ancestor", "asked-brothers>=2", "multi-chunk-header",
-                       "stop-early", "history", "same-hash-other-coinbase", "final:partial", "final:total", "fields:17", "fields:18",
+                       "stop-early", "stop-early-partial", "history", "same-hash-other-coinbase", "final:partial", "final:total", "fields:17", "fields:18",
                        "fields:19", "fields:20", "code:0", "code:1"]
                    for t in ("quick", "thorough")}
 
@@ -99,7 +99,9 @@ def one_request(draw, tier):
     return {"kind": kind, "blocks": blocks, "bros": bros, "ask": ask,
             "policy": draw(chunk_policy()),
             "final": draw(st.sampled_from(["total", "partial"])),
-            "stop": draw(st.one_of(st.none(), st.integers(1, nb)))}
+            "stop": draw(st.one_of(st.none(), st.integers(1, nb))),
+            # what the device reports when it stops before the last block
+            "stop_final": draw(st.sampled_from(["total", "partial"]))}
 
 
 def enc(b):
@@ -153,7 +155,8 @@ def run_one(c, w, p):
     n_rx = len(w.adv_rx)
     w.policy = Policy(c["policy"])
     nb = len(c["blocks"])
-    w.adv_plan = {"final": c["final"], "success_after": c["stop"], "max_brothers": 255}
+    w.adv_plan = {"final": c["final"], "success_after": c["stop"], "max_brothers": 255,
+                  "stop_final": c.get("stop_final", "total")}
     if adv:
         w.adv_plan["brothers"] = {str(i): a for i, a in enumerate(c["ask"])}
     if adv:
@@ -169,7 +172,10 @@ def run_one(c, w, p):
     if not isinstance(rep, dict) or type(rep.get("errorcode")) is not int:
         raise Violation("reply-shape", repr(rep)[:300])
     nsent = c["stop"] if c["stop"] else nb
-    total = bool(c["stop"]) or c["final"] == "total" or not adv
+    if c["stop"]:
+        total = c.get("stop_final", "total") == "total" or not adv
+    else:
+        total = c["final"] == "total" or not adv
     exp_code = 0 if total else 1
     if rep != {"errorcode": exp_code}:
         raise Violation("reply-vs-device-result", "device reported %s success, reply %r" % (
@@ -226,6 +232,8 @@ def run_one(c, w, p):
         labels.append("asked-brothers>=2")
     if c["stop"] and c["stop"] < nb:
         labels.append("stop-early")
+        if adv and not total:
+            labels.append("stop-early-partial")
     labels.append("final:" + c["final"])
     return Out(labels, nb >= 2 and (asked2 or multi_chunk))
 
